@@ -23,6 +23,7 @@ type c10Op struct {
 	M    int    `json:"m,omitempty"`    // delay = M*I (+ I/2 when Half)
 	Half bool   `json:"half,omitempty"` // exercises the floor
 	N    int    `json:"n,omitempty"`    // tick: number of ticks
+	NW   bool   `json:"nw,omitempty"`   // do not wait for the wheel to become quiescent after this call
 }
 
 // c10Expand turns bulk ops (bset/bmove/bremove over keys Key..Key+N-1) into single ops.
@@ -54,6 +55,7 @@ type c10Case struct {
 	Slots int     `json:"slots"`
 	Ops   []c10Op `json:"ops"`
 	Lat   int     `json:"lat,omitempty"` // slow-exec rule: every execute callback sleeps Lat half-intervals
+	Pan   []int   `json:"pan,omitempty"` // slow-exec rule: the callback panics for these keys (after recording the execution)
 }
 
 // verifTicker: unbuffered, so a tick is consumed by the wheel before Tick returns.
@@ -140,7 +142,11 @@ func c10Interp(t *testing.T, c c10Case) (v kit.Verdict) {
 				case "remove":
 					err = w.RemoveTimer(o.Key)
 				}
-				kit.Wait()
+				if !o.NW {
+					kit.Wait()
+				} else {
+					classes["back-to-back-calls"] = true
+				}
 				if stopped {
 					if err != ErrClosed {
 						fail = fmt.Sprintf("%s: after Stop got %v, want ErrClosed", what, err)
@@ -177,7 +183,7 @@ func c10Interp(t *testing.T, c c10Case) (v kit.Verdict) {
 						delete(model, o.Key)
 					}
 				}
-				if !expectNoFire(what) {
+				if !o.NW && !expectNoFire(what) {
 					return
 				}
 			case "badset", "badmove", "badremove":
@@ -364,12 +370,14 @@ func c10Gen(rt *rapid.T) c10Case {
 			o.Val = rapid.IntRange(0, 99).Draw(rt, "val")
 			o.M = rapid.IntRange(1, maxM).Draw(rt, "m")
 			o.Half = rapid.Bool().Draw(rt, "half")
+			o.NW = !stopped && rapid.IntRange(0, 2).Draw(rt, "nw") == 0
 		case "move":
 			o.Key = rapid.IntRange(0, nkeys-1).Draw(rt, "key")
 			o.M = rapid.IntRange(1, maxM).Draw(rt, "m")
 			o.Half = rapid.Bool().Draw(rt, "half")
 		case "remove":
 			o.Key = rapid.IntRange(0, nkeys-1).Draw(rt, "key")
+			o.NW = !stopped && rapid.IntRange(0, 2).Draw(rt, "nw") == 0
 		case "tick":
 			o.N = rapid.IntRange(1, c.Slots+2).Draw(rt, "n")
 		case "badset", "badmove":
@@ -515,6 +523,7 @@ func TestVerif_C10_bulk(t *testing.T) {
 func c10SlowInterp(t *testing.T, c c10Case) (v kit.Verdict) {
 	var fail string
 	overlapped := false
+	panicked := false
 	res := kit.Bubble(t, func() {
 		var mu sync.Mutex
 		got := map[[2]int]int{}
@@ -534,6 +543,12 @@ func c10SlowInterp(t *testing.T, c c10Case) (v kit.Verdict) {
 			mu.Lock()
 			running--
 			mu.Unlock()
+			for _, pk := range c.Pan {
+				if pk == k.(int) {
+					panicked = true
+					panic(fmt.Sprintf("c10: callback of key %d panics", pk))
+				}
+			}
 		}, tk)
 		if err != nil {
 			fail = err.Error()
@@ -598,9 +613,12 @@ func c10SlowInterp(t *testing.T, c c10Case) (v kit.Verdict) {
 			}
 		}
 	})
-	v.NonTrivial = overlapped
+	v.NonTrivial = overlapped || panicked
 	if overlapped {
 		v.Classes = append(v.Classes, "callbacks-overlap-later-tick")
+	}
+	if panicked {
+		v.Classes = append(v.Classes, "callback-panicked")
 	}
 	if fail != "" {
 		v.Fail = fail
@@ -613,6 +631,12 @@ func c10SlowInterp(t *testing.T, c c10Case) (v kit.Verdict) {
 func c10SlowGen(rt *rapid.T) c10Case {
 	c := c10Case{Slots: rapid.IntRange(1, 8).Draw(rt, "slots"), Lat: rapid.IntRange(1, 6).Draw(rt, "lat")}
 	nkeys := rapid.IntRange(2, 6).Draw(rt, "nkeys")
+	if rapid.IntRange(0, 2).Draw(rt, "panics") == 0 {
+		np := rapid.IntRange(1, 2).Draw(rt, "npan")
+		for i := 0; i < np; i++ {
+			c.Pan = append(c.Pan, rapid.IntRange(0, nkeys-1).Draw(rt, "pankey"))
+		}
+	}
 	n := rapid.IntRange(3, 30).Draw(rt, "nops")
 	for i := 0; i < n; i++ {
 		switch rapid.IntRange(0, 9).Draw(rt, "kind") {
